@@ -6,6 +6,7 @@ THEOREMS = ["c06_gate_sound", "c06_identity_real", "c06_never_denied", "c06_deny
             "c06_cookie_window", "c06_cookie_outside_window_refused", "c06_grace_refuted",
             "c06_basic_only_without_cookie", "c06_webui_without_password", "c06_csrf",
             "c06_routes", "c06_public_no_effect", "c06_csrf_partial", "c06_csrf_nonget",
+            "c06_login_mints_password_only", "c06_login_ignores_attached", "c06_login_session_needs_second_factor", "c06_login_row_is_issuer", "c06_login_carry_refuted", "c06_obs_login_is_spec",
             "c06_get_state_changers", "c06_get_effects_refuted", "c06_old_manage_refuted", "c06_old_register_finish_refuted", "c06_old_auth_finish_refuted", "c06_old_tls_refuted"]
 
 def _field(line, name, default="?"):
@@ -16,6 +17,9 @@ def _field(line, name, default="?"):
 def _gate_key(line):
     return "C06:model-oracle:gate-admits:%s" % _field(line, "class")
 
+def _login_key(line):
+    return "C06:model-oracle:login-minted-level:%s" % _field(line, "class")
+
 def _route_key(line):
     return "C06:model-oracle:route:%s:%s" % (_field(line, "handler"), _field(line, "class"))
 
@@ -24,6 +28,10 @@ GATE_WHAT = ("checkAuth admitted an identity / level on this case although the c
              "evaluates to false on the observation (gate_conclusion, proved equivalent to the statement)")
 ROUTE_WHAT = ("a protected effect was observed, or an identity was logged, on this case although the request is not accepted by the "
               "route's declared gate (acceptsb / identity_okb evaluated on the observation, proved equivalent to the conclusion of c06_routes)")
+
+LOGIN_WHAT = ("the login route set a session cookie on this case although the conclusion of c06_login_mints_password_only (level = the password level exactly, "
+              "subject = the normalised user of the login credential, that credential a verified password - whatever auth_cookie / client certificate is attached) "
+              "evaluates to false on the observed subject and level (login_conclusion, proved equivalent to the statement)")
 
 def run(ctx):
     return standard(ctx,
@@ -34,6 +42,7 @@ def run(ctx):
                               ("c06_route_mismatches", "per route of the regenerated mux: logged identity = model, observed effects within the model's"),
                               ("c06_window_gate_mismatches", "checkAuth on session cookies minted around the request (exp / nbf a few seconds to an hour before and after the clock, iat in the future, with and without a basic-auth header) = model check_auth at a clock reading inside the interval measured around the call (nanoseconds; no other tolerance)", "CasesC06_wgate.idx"),
                               ("c06_window_route_mismatches", "the same cookies through representative routes (certgen, profile, TOTP generation, token manager, OpenID authorization, U2F sign request): logged identity and effects = model run at a clock reading inside the measured interval", "CasesC06_wroute.idx"),
+                              ("c06_login_mismatches", "the login route as issuer of sessions: login credential (form / Authorization header / both, right and wrong password, unnormalised name) x attached auth_cookie state (none; the same and another user's session of every level; expired, foreign, junk; two cookies) x client certificate x method x Accept: refusal status resp. subject and auth_type of the Set-Cookie decoded under the server's key = model login_handler", "CasesC06_login.idx"),
                               ("c06_webui_mismatches", "getRequiredWebUIAuthLevel() = model webui_level on every subset of the backend names and on the loaded configurations", "CasesC06_webui.idx")],
                "CasesC06_route.idx"),
         trusted=["signature verification (go-jose, crypto/x509 chain building) is symbolic in the model: the harness knows by construction which token / chain is genuine and the real verifier has to find out from the bytes",
@@ -47,7 +56,8 @@ def run(ctx):
         model_oracles=[("c06_gate_violating", _gate_key, GATE_WHAT, "CasesC06_gate.idx"),
                        ("c06_route_violating", _route_key, ROUTE_WHAT, "CasesC06_route.idx"),
                        ("c06_window_gate_violating", _gate_key, GATE_WHAT, "CasesC06_wgate.idx"),
-                       ("c06_window_route_violating", _route_key, ROUTE_WHAT, "CasesC06_wroute.idx")],
+                       ("c06_window_route_violating", _route_key, ROUTE_WHAT, "CasesC06_wroute.idx"),
+                       ("c06_login_violating", _login_key, LOGIN_WHAT, "CasesC06_login.idx")],
         timeout=1500,
         # the probes restore the profile tables thousands of times: keep the scratch database off the disk
         env=({"TMPDIR": "/dev/shm"} if os.path.isdir("/dev/shm") and os.access("/dev/shm", os.W_OK) else None))
